@@ -73,6 +73,7 @@ fn p1_alphabet(n: usize, tier: Tier) -> Vec<Dev> {
             true
         }));
     }
+    d.extend(crate::devs::rich_generic_devs(true));
     d.extend(crate::devs::syntax_devs(true, false, true, false));
     d
 }
